@@ -461,6 +461,12 @@ pub fn parse_date_yymmdd(input: &str) -> Result<NaiveDate, ParseError> {
         });
     }
 
+    if !input.bytes().all(|b| b.is_ascii_digit()) {
+        return Err(ParseError::InvalidFormat {
+            message: "Date must contain only digits".to_string(),
+        });
+    }
+
     let year = input[0..2]
         .parse::<u32>()
         .map_err(|_| ParseError::InvalidFormat {
